@@ -235,7 +235,8 @@ unsigned g_pos[NSLOT], g_height;        /* ghost witness of the free chain: heig
 static void witness_sync(void) {
   unsigned char npop = 0, npush = 0; unsigned popped_h = 0;
   for (int i = 0; i < NSLOT; i++) {
-    _Bool free_now = slot_live(i) && SLOT(i)->guard_cnt == 0;
+    if (!slot_live(i)) { g_pos[i] = 0; continue; }
+    _Bool free_now = SLOT(i)->guard_cnt == 0;
     if (g_pos[i] > 0 && !free_now) { if (npop < 2) npop++; popped_h = g_pos[i]; g_pos[i] = 0; }
     if (g_pos[i] == 0 && free_now) { if (npush < 2) npush++; }
   }
